@@ -219,6 +219,9 @@ func RunCdrFile(in, out string) error {
 				rec[what] = "timeout"
 			}
 		}
+		// the CHF rewrites one file name per subscriber with images of varying length (an update writes all records, a
+		// release only one): the name already holds an older, longer image when Encoding is called
+		_ = os.WriteFile(path, bytes.Repeat([]byte{0xA5}, 200000), 0o644)
 		guard("encErr", func() { file.Encoding(path) })
 		data, rerr := os.ReadFile(path)
 		if rerr != nil && rec["encErr"] == "" {
